@@ -1712,10 +1712,22 @@ def _held_forms(kind, value):
             out += [(f'{dt} ndarray', f'np.array(v, dtype=np.{dt})') for dt in ('int64', 'int32', 'int16', 'int8')]
             if all(y >= 0 for y in flat):
                 out += [(f'unsigned ({dt}) ndarray', f'np.array(v, dtype=np.{dt})') for dt in ('uint8', 'uint16', 'uint64')]
+    elif kind == 'ndarray':              # documented as a NumPy array (wireless.py): numeric dtypes, layouts
+        cplx = np.iscomplexobj(value) and bool(np.iscomplex(value).any())
+        base = 'complex128' if cplx else 'float64'
+        out += [(f'writeable {base} ndarray', f'np.array(v, dtype=np.{base})'), (f'Fortran-ordered {base} ndarray', f'np.asfortranarray(np.array(v, dtype=np.{base}))'),
+                (f'non-contiguous {base} view', f'np.repeat(np.array(v, dtype=np.{base}), 2, axis=-1)[..., ::2]'),
+                ('complex64 ndarray', 'np.array(v, dtype=np.complex64)')]
+        if not cplx:
+            out += [('writeable complex128 ndarray', 'np.array(v, dtype=np.complex128)'), ('float32 ndarray', 'np.array(v, dtype=np.float32)')]
+            if all(float(y).is_integer() for y in np.real(value).ravel()):
+                out += [(f'{dt} ndarray', f'np.array(np.real(v), dtype=np.{dt})') for dt in ('int64', 'int8')]
     elif kind in ('iterable', 'collection', 'sequence'):
         out += [('list', 'list(v)'), ('tuple', 'tuple(v)')]
-        if value and all(isinstance(x, tuple) and len(x) == 2 for x in value):
-            out += [('list of lists', '[list(x) for x in v]')]
+        if kind == 'sequence':
+            if value and all(isinstance(x, str) and len(x) == 1 for x in value):
+                out += [('str', '"".join(v)')]
+        elif value and all(isinstance(x, tuple) and len(x) == 2 for x in value):
             try:
                 if len({x[0] for x in value}) == len(value):
                     out += [('dict view', 'dict(v).items()')]
@@ -1733,7 +1745,7 @@ def snap(o):
     # a value that is equal before and after iff the object (and what it holds) is unchanged, dtype / flags / order included
     import numpy as np, collections.abc as abc
     if isinstance(o, np.ndarray):
-        return ('ndarray', o.dtype.str, o.shape, o.strides, bool(o.flags.writeable), [snap(x) for x in o.ravel()] if o.dtype == object else o.tobytes())
+        return ('ndarray', o.dtype.str, o.shape, o.strides, bool(o.flags.writeable), repr(o.tolist()))
     if isinstance(o, (list, tuple)):
         return (type(o).__name__, [snap(x) for x in o])
     if isinstance(o, (abc.KeysView, abc.ValuesView)):
@@ -1760,10 +1772,11 @@ def forms_cases(ctx, r):
     from dimod.generators.bpsp import binary_paint_shop_problem
     from dimod.generators.satisfiability import random_kmcsat
     from dimod.generators.chimera import chimera_anticluster
+    from dimod.generators.wireless import mimo
     env0 = {'G': G, 'np': np, 'dimod': dimod, 'binary_paint_shop_problem': binary_paint_shop_problem, 'random_kmcsat': random_kmcsat,
-            'chimera_anticluster': chimera_anticluster}
+            'chimera_anticluster': chimera_anticluster, 'mimo': mimo}
     imports = ('from dimod.generators.bpsp import binary_paint_shop_problem\nfrom dimod.generators.satisfiability import random_kmcsat\n'
-               'from dimod.generators.chimera import chimera_anticluster\n')
+               'from dimod.generators.chimera import chimera_anticluster\nfrom dimod.generators.wireless import mimo\nfrom numpy import array\n')
 
     def run_call(call, args, subst):
         """evaluate `call` (an expression over the argument names) with each name bound to its list form, except those in
@@ -1784,6 +1797,7 @@ def forms_cases(ctx, r):
         ref, ref_err = run_call(call, args, {})
         pool = [(an, cls, expr) for an, kind in kinds.items() for cls, expr in _forms(kind, args[an], r)]
         if not pool:
+            pure(name, call, args, kinds, ref, ref_err)
             return
         # every single-argument substitution of a one-shot form, and a random sample of the rest / of combinations
         chosen = [[t] for t in pool if t[1] == 'one-shot iterator']
@@ -1833,10 +1847,12 @@ def forms_cases(ctx, r):
             combos.append({an: r.choice(fs) for an, fs in held.items()})
         for combo in combos:
             env = dict(env0)
-            for an, val in args.items():
-                env[an] = eval(combo[an][1], {'v': val, 'np': np}) if an in combo else val
+            with warnings.catch_warnings():
+                warnings.simplefilter('ignore')
+                for an, val in args.items():
+                    env[an] = eval(combo[an][1], {'v': val, 'np': np}) if an in combo else val
             before = {an: snap(env[an]) for an in args}
-            outs = []
+            outs, after = [], dict(before)
             for _k in range(2):
                 with warnings.catch_warnings():
                     warnings.simplefilter('ignore')
@@ -1844,7 +1860,9 @@ def forms_cases(ctx, r):
                         outs.append(eval(call, env))
                     except (ValueError, TypeError, RuntimeError, KeyError, IndexError, AttributeError) as e:
                         outs.append(e)
-            after = {an: snap(env[an]) for an in args}
+                for an in args:                       # after EVERY call (two sign flips cancel)
+                    if after[an] == before[an]:
+                        after[an] = snap(env[an])
             forms_txt = ', '.join(f'{an} = {combo[an][1]}' for an in combo)
             ctx.tick(f'pure:{name}:' + '+'.join(sorted(set(c for c, _ in combo.values()))))
             ctx.case(('pure', name, call, repr(args), forms_txt), nontrivial=ref is not None, sample=dict(call=call, forms=forms_txt))
@@ -1872,6 +1890,12 @@ def forms_cases(ctx, r):
                          repro=head + bind + f'a = {call}\nb = {call}\nassert same(a, b), "two calls with the same argument objects give different models"\n')
             elif not same(m1, ref if ref is not None else ref_err):
                 bad = [an for an in combo if combo[an][0] not in ('list',)]
+                alone = []              # the arguments whose form alone (fresh object, the others as lists) already changes the model
+                for an in bad:
+                    got1, err1 = run_call(call, args, {an: combo[an][1]})
+                    if not same(got1 if got1 is not None else err1, ref if ref is not None else ref_err):
+                        alone.append(an)
+                bad = alone or bad
                 cls = '; '.join(f'{an} given as {combo[an][0]}' for an in sorted(bad))
                 ctx.fail('property', site, cls,
                          f'{call} with {forms_txt} of {args!r}: ' + (f'raises {type(m1).__name__}: {m1}' if isinstance(m1, Exception) else 'accepted although the list form raises' if ref is None
@@ -1935,6 +1959,17 @@ def forms_cases(ctx, r):
         planted = [(v, r.choice([-1, 1])) for v in gnodes]
         one('frustrated_loop', f'G.frustrated_loop((gnodes, gedges), 2, seed={seed}, planted_solution=dict(planted) if isinstance(planted, list) else planted)',
             dict(gnodes=gnodes, gedges=gedges, planted=planted), dict(planted='mapping'))
+        # wireless: the received signal / channel / transmitted symbols / noise are NumPy arrays the caller keeps
+        nr_, nt_ = r.randint(1, 2), r.randint(1, 2)
+        zr = lambda: float(r.randint(-4, 4)) / r.choice([1, 1, 2])   # noqa: E731
+        Fm = np.array([[zr() for _ in range(nt_)] for _ in range(nr_)]); ym = np.array([[zr()] for _ in range(nr_)])
+        Fc = Fm + 1j * np.array([[zr() for _ in range(nt_)] for _ in range(nr_)]); yc = ym + 1j * np.array([[zr()] for _ in range(nr_)])
+        ts = np.array([[float(r.choice([-1, 1]))] for _ in range(nt_)]); cn = np.array([[zr()] for _ in range(nr_)])
+        one('mimo', 'mimo("BPSK", y, F)', dict(y=ym, F=Fm), dict(y='ndarray', F='ndarray'))
+        if np.iscomplex(Fc.conj().T @ yc).any() or np.iscomplex(Fc.conj().T @ Fc).any():      # the data-dependent real form: D65
+            one('mimo', 'mimo("QPSK", y, F)', dict(y=yc, F=Fc), dict(y='ndarray', F='ndarray'))
+        one('mimo', 'mimo("BPSK", F=F, transmitted_symbols=ts)', dict(F=Fm, ts=ts), dict(F='ndarray', ts='ndarray'))
+        one('mimo', 'mimo("BPSK", F=F, transmitted_symbols=ts, channel_noise=cn)', dict(F=Fm, ts=ts, cn=cn), dict(F='ndarray', ts='ndarray', cn='ndarray'))
         if rep % 3 == 0:
             tile, inter = chimera_lattice(1, 2, 2)
             sn = [v for v in range(8) if r.random() < .8]
